@@ -187,7 +187,7 @@ def run(tier, cases=None):
         k = 1 if tier == "thorough" else 6
         fam, rf = progs.run_family(families.property_cases() + families.clone_jmpi_cases() + c01.island_cases()[::k] + c01.loop_cases()[::k]
                                    + families.fpcmp_cases()[::k] + families.andext_cases()[::k] + families.spill_index_cases()[::k]
-                                   + c01.memwin_cases(40 * k, vlib.seed() % 40) + c01.gvar_cases()[::k])
+                                   + c01.memwin_cases(40 * k, vlib.seed() % 40) + c01.gvar_cases()[::k] + families.jcall_cases()[:6:2])
         cases = cases + fam
         ck.setc("family_cases", len(fam))
     m2c, drv = build_m2c()
@@ -221,7 +221,8 @@ def run(tier, cases=None):
         nval += 1
         ops = sorted({I["op"] for I in c["prog"]["funcs"][0]["insns"]})
         if kind != "ok":
-            ck.violation("mir2c:%s" % kind, "program %d: %s" % (i, co), {"case": c, "text": text})
+            jc = any(I["op"] in ("jcall", "jret") for f in c["prog"]["funcs"] for I in f["insns"])      # no C counterpart: a listed finding
+            ck.violation("mir2c:%s%s" % (kind, ":jcall" if jc else ""), "program %d: %s" % (i, co), {"case": c, "text": text})
             continue
         msg = progs.compare_obs(io, co, nans, "interp", "C")
         if msg:
